@@ -87,7 +87,13 @@ def stepOp (m : M) (op impl : String) : M × String × String :=
           let verdict :=
             if kv implRes "same" ≠ some "true" then "viol:reexport-differs"
             else match implDump with
-              | some d => judgeRestored m.cuts d
+              | some d =>
+                -- the restored rows are exactly the committed rows of the (model-tracked) source
+                let implRows := ((d.splitOn ";").filterMap C09D.parseEntry).filter (fun e => match e.1 with | .row _ _ => true | _ => false)
+                let wantRows := t'.filter (fun e => match e.1 with | .row _ _ => true | _ => false)
+                if wantRows.any (fun e => !implRows.contains e) then "viol:committed-row-missing-after-restore"
+                else if implRows.any (fun e => !wantRows.contains e) then "viol:restored-row-not-committed-in-source"
+                else judgeRestored m.cuts d
               | none => "viol:no-dump"
           ({ m with dst := some t' }, out, verdict)
     else if kind == "sweep" then
